@@ -24,8 +24,10 @@
       single-entity Exchange postcondition with the callback's values written (zero-sized
       components read 0), leaves every other entity and every dead handle untouched, logs exactly
       one callback per moved entity (NoDup), unlocks the world; if a selected non-empty table is not
-      ready (has a component of add / lacks one of rem) the call fails BEFORE anything moved
-      (content unchanged; the lock bit stays taken, as in the code); RemoveEntities
+      ready (has a component of add / lacks one of rem) the call fails BEFORE anything moved:
+      content unchanged and the world unlocked again (the lock is exactly the one obtained by
+      taking and releasing one bit; before the repair d31ae2e this branch could only be proved
+      with "the world stays locked", which is how that defect was found); RemoveEntities
       ([C06_remove_entities]): exactly the selected entities die (their handles are rejected
       afterwards), all others unchanged, one callback each iff a callback was passed; NewBatch
       ([C06_new_batch]): n fresh handles with exactly the given components, callback values or
@@ -134,7 +136,9 @@ Theorem C06_exchange_batch : forall s fi tabs add rem vals,
       w_pool s' = w_pool s /\ frame_user s s'
   | Err _ s' =>
       (exists tid t, In tid tabs /\ nth_error (w_tables s) tid = Some t /\ t_len t <> 0 /\ ~ bo_ready add rem (t_ids t)) /\
-      St s' /\ content_same s s' /\ is_locked s' = true /\ w_log s' = w_log s /\ w_pool s' = w_pool s /\ frame_user s s'
+      St s' /\ content_same s s' /\ is_locked s' = false /\ w_log s' = w_log s /\ w_pool s' = w_pool s /\ frame_user s s' /\
+      lk_mask (w_lock s') = lk_mask (w_lock s) /\
+      (exists b l1, lock_lock (w_lock s) = Some (b, l1) /\ lock_unlock l1 b = Some (w_lock s'))
   end.
 Proof. exact exchange_batch_spec. Qed.
 
